@@ -299,6 +299,13 @@ func (ds *describer) d(v ssa.Value, depth int) string {
 	case *ssa.Convert:
 		return "conv<" + short(x.Type().String()) + ">(" + ds.d(x.X, depth+1) + ")"
 	case *ssa.Slice:
+		if elems, ok := varargElems(x); ok {
+			var parts []string
+			for _, e := range elems {
+				parts = append(parts, ds.d(e, depth+1))
+			}
+			return "[" + strings.Join(parts, ", ") + "]"
+		}
 		s := "slice(" + ds.d(x.X, depth+1)
 		for _, b := range []ssa.Value{x.Low, x.High, x.Max} {
 			if b == nil {
@@ -459,4 +466,158 @@ func referrers(v ssa.Value) []ssa.Instruction {
 		return nil
 	}
 	return *r
+}
+
+// varargElems: for a slice t[:] of a freshly allocated array whose slots are each
+// stored exactly once at constant indexes (the shape of a variadic argument list
+// or a small composite literal), returns the stored values in index order.
+func varargElems(sl *ssa.Slice) ([]ssa.Value, bool) {
+	al, ok := sl.X.(*ssa.Alloc)
+	if !ok || sl.Low != nil || sl.High != nil {
+		return nil, false
+	}
+	pt, ok := al.Type().Underlying().(*types.Pointer)
+	if !ok {
+		return nil, false
+	}
+	arr, ok := pt.Elem().Underlying().(*types.Array)
+	if !ok {
+		return nil, false
+	}
+	elems := make([]ssa.Value, arr.Len())
+	for _, r := range referrers(al) {
+		switch u := r.(type) {
+		case *ssa.IndexAddr:
+			idx, isC := intConst(u.Index)
+			if !isC || idx < 0 || idx >= arr.Len() {
+				return nil, false
+			}
+			for _, r2 := range referrers(u) {
+				st, ok := r2.(*ssa.Store)
+				if !ok || st.Addr != u || elems[idx] != nil {
+					return nil, false
+				}
+				elems[idx] = st.Val
+			}
+		case *ssa.Slice:
+		default:
+			return nil, false
+		}
+	}
+	for _, e := range elems {
+		if e == nil {
+			return nil, false
+		}
+	}
+	return elems, true
+}
+
+// structLit: for v = *alloc (or alloc itself) where alloc is a local struct whose
+// fields are each stored at most once via FieldAddr, returns field -> stored value.
+func structLit(v ssa.Value) (map[string]ssa.Value, bool) {
+	v = strip(v)
+	if u, ok := v.(*ssa.UnOp); ok && u.Op == token.MUL {
+		v = u.X
+	}
+	al, ok := v.(*ssa.Alloc)
+	if !ok {
+		return nil, false
+	}
+	pt, ok := al.Type().Underlying().(*types.Pointer)
+	if !ok {
+		return nil, false
+	}
+	st, ok := pt.Elem().Underlying().(*types.Struct)
+	if !ok {
+		return nil, false
+	}
+	out := map[string]ssa.Value{}
+	for _, r := range referrers(al) {
+		fa, ok := r.(*ssa.FieldAddr)
+		if !ok {
+			continue
+		}
+		for _, r2 := range referrers(fa) {
+			if s, ok := r2.(*ssa.Store); ok && s.Addr == fa {
+				name := st.Field(fa.Field).Name()
+				if _, dup := out[name]; dup {
+					return nil, false
+				}
+				out[name] = s.Val
+			}
+		}
+	}
+	return out, true
+}
+
+// backwardSlice returns the data-dependence closure of v within its function:
+// operands, and for loads from a local allocation (or a field/element of one) the
+// values stored into that allocation.
+func backwardSlice(v ssa.Value, limit int) map[ssa.Value]bool {
+	seen := map[ssa.Value]bool{}
+	var walk func(x ssa.Value)
+	walk = func(x ssa.Value) {
+		if x == nil || seen[x] || len(seen) > limit {
+			return
+		}
+		seen[x] = true
+		if al, ok := x.(*ssa.Alloc); ok {
+			var storesTo func(addr ssa.Value)
+			storesTo = func(addr ssa.Value) {
+				for _, r := range referrers(addr) {
+					switch u := r.(type) {
+					case *ssa.Store:
+						if u.Addr == addr {
+							walk(u.Val)
+						}
+					case *ssa.FieldAddr:
+						storesTo(u)
+					case *ssa.IndexAddr:
+						storesTo(u)
+					}
+				}
+			}
+			storesTo(al)
+			return
+		}
+		in, ok := x.(ssa.Instruction)
+		if !ok {
+			return
+		}
+		for _, op := range in.Operands(nil) {
+			if *op != nil {
+				walk(*op)
+			}
+		}
+	}
+	walk(v)
+	return seen
+}
+
+// indexedFields lists the names of struct fields whose (slice/array/map) value is
+// indexed or ranged somewhere in the backward slice of v: the "lists" v is drawn from.
+func indexedFields(v ssa.Value) map[string]bool {
+	out := map[string]bool{}
+	for x := range backwardSlice(v, 4000) {
+		var coll ssa.Value
+		switch u := x.(type) {
+		case *ssa.IndexAddr:
+			coll = u.X
+		case *ssa.Index:
+			coll = u.X
+		case *ssa.Range:
+			coll = u.X
+		case *ssa.Lookup:
+			coll = u.X
+		}
+		if coll == nil {
+			continue
+		}
+		if _, f, ok := fieldLoad(coll); ok {
+			out[f] = true
+		} else if c, ok := strip(coll).(*ssa.Call); ok {
+			out["call:"+calleeName(&c.Call)] = true
+		}
+	}
+	return out
 }
